@@ -54,10 +54,12 @@ def check(run):
         C05.route(R)
     with R.as_rule('C08.echoswallow'):
         C09.swallow(R)
+    server(R)
     writers(R)
     onlyclose(R)
+    from . import C03
+    C03.rsv1gate(R, RID='C08.onlyclose')      # the Close frame is written as built (never through the compressor)
     refuse(R)
-    server(R)
     client(R)
     eof(R)
     keepreading(R)
@@ -188,7 +190,9 @@ def onlyclose(R, RID='C08.onlyclose'):
          func=q, node=(bad[0].ast if bad else c), construct='closing set after failed _send_close')
     cf = R.func(q)
     a0, a1 = (c.args + [None, None])[:2]
-    ok = a0 is not None and a1 is not None and U(a0) == cf.params[1] and U(a1) == cf.params[2]
+    rdq = ReachingDefs(g)
+    ok = a0 is not None and a1 is not None and U(a0) == cf.params[1] and U(a1) == cf.params[2] \
+        and is_param(rdq, n, a0) and is_param(rdq, n, a1)       # as given: a None code (empty Close) is echoed as such
     R.ob(RID, 'close() sends its own code and reason', ok, '_send_close(%s)' % ', '.join(U(a) for a in c.args),
          func=q, node=c)
     # _send_close swallows only transport/unavailable, returns after one attempt
@@ -238,6 +242,17 @@ def server(R):
     mp = f.params[1]
     ycl = [y for y in g.yields() if 'inst:events.Closing' in R.types.expr(y.ast.value, g.ctx)]
     echo = calls_to(R, g, WS + '.close')
+    if not ycl:
+        # the Closing event is constructed here but not yielded here (returned in a list ...): it then reaches the
+        # application only after _on_close() has finished, i.e. after the echo
+        built = [(n, c) for n in g.live_nodes() for c in n.calls
+                 if any(t.kind == 'ctor' and t.cls == 'events.Closing' for t in R.types.call_targets(c, g.ctx))]
+        if built and echo:
+            R.ob('C08.server', 'Closing is yielded before the echo', False,
+                 '_on_close builds the Closing event without yielding it before self.close(...): the Close is echoed (and '
+                 'the closing state entered) before the application has seen Closing, so it can no longer send during the '
+                 'event', func=f, node=built[0][1], construct='Closing not yielded before the echo')
+            return
     need(len(ycl) == 1, '_on_close: Closing yield not found')
     R.ob('C08.server', 'the server\'s Close is echoed through close()', len(echo) == 1,
          '_on_close does not echo through self.close(...) (%d calls): the echo bypasses the state handling of close()' % len(echo),
